@@ -1,6 +1,6 @@
 #!/usr/bin/env python3
 """C04 - only the current PIN authenticates; PIN changes are exact and lossless."""
-import sys, os; sys.path.insert(0, os.path.join(os.path.dirname(os.path.abspath(__file__)), '..', 'vlib'))
+import os, sys, os; sys.path.insert(0, os.path.join(os.path.dirname(os.path.abspath(__file__)), '..', 'vlib'))
 from harness import main
 from walkcheck import run_walks
 from model import MIN_PIN, MAX_PIN
@@ -175,6 +175,77 @@ def two_process_scenarios(ctx, backend):
                 for x in (x0, A, B, C):
                     if x is not None: x.kill()
 
+def fault_job(job):
+    """OBSERVATION lane (no verdict): a PIN change whose k-th file-system operation fails (every k, both back-ends).  After a FAILED C_SetPIN / C_InitPIN it is recorded
+    whether the PIN that was in force still logs in and the rejected one does not (in this process and after C_Finalize / C_Initialize), and whether the other user's
+    PIN and a private object stay usable.  C04 speaks of attempts rejected for their arguments or session state; failures of the store are quantified in C05 / C09 only."""
+    from ck import CK
+    from p11client import Exec, mkconf, Died, Hang
+    from harness import SAN_ENV, Part
+    import shutil, os
+    ck = CK(job['hdr']); part = Part(); be = job['backend']; call = job['call']; SO, U, NEW = b'so-pin-f4', b'user-pin-f4', b'changed-pin-f4'
+    base = os.path.join(job['scratch'], f'c04f-{be}-{call}'); gold = base + '-gold'; d = base + '-run'
+    for q in (gold, d): shutil.rmtree(q, ignore_errors=True)
+    def start(dirp): return Exec(job['paths']['asan']['exe'], job['paths']['asan']['lib'], mkconf(dirp, be), ck, env=dict(SAN_ENV), stderr=dirp + '/stderr.log')
+    def attach(x):
+        assert x.call('C_Initialize', locking='os')['rv'] == 0
+        slot = [sl for sl in x.call('C_GetSlotList', count=8)['slots'] if x.call('C_GetTokenInfo', slot=sl)['flags'] & ck.CKF_TOKEN_INITIALIZED][0]
+        return slot, x.call('C_OpenSession', slot=slot, flags=6)['h']
+    def victim(x, s):
+        if call == 'user-setpin-public': return x.call('C_SetPIN', s=s, old=U.hex(), new=NEW.hex()), 1
+        if call == 'user-setpin-loggedin': assert x.call('C_Login', s=s, user=1, pin=U.hex())['rv'] == 0; return x.call('C_SetPIN', s=s, old=U.hex(), new=NEW.hex()), 1
+        assert x.call('C_Login', s=s, user=0, pin=SO.hex())['rv'] == 0
+        if call == 'so-setpin': return x.call('C_SetPIN', s=s, old=SO.hex(), new=NEW.hex()), 0
+        return x.call('C_InitPIN', s=s, pin=NEW.hex()), 1
+    def logs_in(x, s, ut, pin):
+        x.call('C_Logout', s=s); r = x.call('C_Login', s=s, user=ut, pin=pin.hex())
+        if r['rv'] == 0: x.call('C_Logout', s=s)
+        return r['rv'] == 0
+    def OBS(key, what, w):      # file-system faults are outside the quantifier of C04 (they belong to C05 / C09, and PINs are not objects): what a failed PIN change leaves behind is reported, never judged
+        part.observe('a PIN change that FAILED under a file-system fault changed something (outside the quantifier of C04; not judged)', key, cap=40); part.count('pin_fault_outcomes_observed')
+    x = None
+    try:
+        x = start(gold); assert x.call('C_Initialize', locking='os')['rv'] == 0; slot = x.call('C_GetSlotList', count=8)['slots'][-1]
+        assert x.call('C_InitToken', slot=slot, pin=SO.hex(), label=b'c04f'.hex())['rv'] == 0; s = x.call('C_OpenSession', slot=slot, flags=6)['h']
+        assert x.call('C_Login', s=s, user=0, pin=SO.hex())['rv'] == 0 and x.call('C_InitPIN', s=s, pin=U.hex())['rv'] == 0 and x.call('C_Logout', s=s)['rv'] == 0
+        assert x.call('C_Login', s=s, user=1, pin=U.hex())['rv'] == 0
+        assert x.call('C_CreateObject', s=s, tmpl=x.T({'CKA_CLASS': ck.CKO_DATA, 'CKA_TOKEN': True, 'CKA_PRIVATE': True, 'CKA_LABEL': b'priv', 'CKA_VALUE': b'recorded-private-value'}))['rv'] == 0
+        x.call('C_Finalize'); x.close(); x = None; root = d + '/tokens'
+        def fresh(): shutil.rmtree(d, ignore_errors=True); shutil.copytree(gold, d); return start(d)
+        x = fresh(); slot, s = attach(x); x.call('fs', mode='count', root=root); (r0, ut) = victim(x, s); N = x.call('fs', mode='status')['nops']; x.call('fs', mode='off'); x.close(); x = None
+        part.observe('fs operations of one PIN change (fault-free run)', {'call': call, 'backend': be, 'n': N, 'rv': r0['rvname']})
+        if r0['rv'] != 0: part.inconc(f'fault lane: {call} fails without a fault on {be}: {r0["rvname"]}'); return part
+        for k in range(1 + job['chunk'], min(N, job['maxops']) + 1, job['nchunks']):
+            x = fresh(); slot, s = attach(x); x.call('fs', mode='fail', root=root, k=k, errno=job['errno'])
+            try: r, ut = victim(x, s)
+            except Died as e: part.observe('side:C17 library terminated the host under an FS fault', {'kind': e.kind(), 'fn': e.fn, 'call': call}); part.inconc(f'executor died under fault {call} k={k}'); x = None; continue
+            inj = x.call('fs', mode='status').get('injected'); x.call('fs', mode='off')
+            part.case(('pin-change-fault', be, call, k), nontrivial=bool(inj), sample={'pin_change_under_fault': [call, be, k, r['rvname']]} if k == 1 else None); part.count('pin_faults_injected', 1 if inj else 0)
+            if r['rv'] == 0: part.count('pin_changes_ok_under_fault_not_judged'); x.close(); x = None; continue
+            part.count('pin_changes_failed_under_fault')
+            old = SO if ut == 0 else U; other = U if ut == 0 else SO; who = 'so' if ut == 0 else 'user'
+            for phase in ('same-process', 'after-reinitialisation'):
+                if phase == 'after-reinitialisation':
+                    x.call('C_Finalize'); assert x.call('C_Initialize', locking='os')['rv'] == 0
+                    sl = [q for q in x.call('C_GetSlotList', count=8)['slots'] if x.call('C_GetTokenInfo', slot=q)['flags'] & ck.CKF_TOKEN_INITIALIZED]
+                    if not sl: OBS(f'{call}|{be},fs-fault|token-unusable-after-failed-pin-change', 'after a PIN change that failed under a file-system fault the token is gone', {'k': k, 'rv': r['rvname'], 'phase': phase}); break
+                    s = x.call('C_OpenSession', slot=sl[0], flags=6)['h']
+                w = dict(call=call, backend=be, k=k, errno=job['errno'], rv=r['rvname'], phase=phase)
+                if logs_in(x, s, ut, NEW): OBS(f'{call}|{be},fs-fault|rejected-{who}-pin-logs-in({phase})', 'a PIN change FAILED (file-system fault) but the rejected new PIN logs in', w)
+                if not logs_in(x, s, ut, old): OBS(f'{call}|{be},fs-fault|{who}-pin-in-force-refused({phase})', 'a PIN change FAILED (file-system fault) and the PIN that was in force no longer logs in', w)
+                if not logs_in(x, s, 1 - ut, other): OBS(f'{call}|{be},fs-fault|other-users-pin-refused({phase})', 'a PIN change FAILED (file-system fault) and the OTHER user\'s PIN no longer logs in', w)
+                if x.call('C_Login', s=s, user=1, pin=U.hex())['rv'] == 0:
+                    rvn, hs = x.findall(s, {'CKA_LABEL': b'priv'}); v = x.getattrs(s, hs[0], ['CKA_VALUE'])[1].get('CKA_VALUE') if hs else None; x.call('C_Logout', s=s)
+                    if v != b'recorded-private-value': OBS(f'{call}|{be},fs-fault|private-object-unreadable({phase})', 'a PIN change FAILED (file-system fault) and an existing private object no longer reads back its value', dict(w, got=str(v)))
+            x.close(); x = None
+    except AssertionError as e: part.inconc(f'PIN fault lane setup failed ({call},{be}): {e!r}')
+    except Died as e: part.observe('side:C17 library terminated the host', {'kind': e.kind(), 'fn': e.fn}); part.inconc(f'executor died in PIN fault lane ({call},{be})')
+    except Hang: part.inconc(f'hang in PIN fault lane ({call},{be})')
+    finally:
+        if x is not None: x.kill()
+        for q in (gold, d): shutil.rmtree(q, ignore_errors=True)
+    return part
+
 def run(ctx):
     ctx.rule = ('histories of C_InitToken / C_InitPIN / C_SetPIN (from RW public, RW user, SO, RO sessions) / C_Login attempts / restarts (C_Finalize+C_Initialize and new processes) on two tokens; '
                 'PINs from lengths 0..256 incl. MIN-1, MIN, MAX, MAX+1, embedded NUL, bytes >= 0x80, prefixes / extensions / one-bit neighbours of the real PIN, the other user\'s PIN, every previous PIN; '
@@ -182,6 +253,11 @@ def run(ctx):
                 'one evaluation = one step or probe; distinct = (event kind, user type / session state, PIN relation class) actually exercised')
     ctx.need('asan')
     for b in ('file', 'db'): two_process_scenarios(ctx, b)
+    from harness import pmap
+    nch = 4; fjobs = [dict(paths=ctx.paths, hdr=ctx.paths['asan']['hdr'], scratch=ctx.scratch + f'/f{c}', call=call, backend=b, maxops=ctx.q(60, 400), errno=e, chunk=c, nchunks=nch)
+                      for b in ('file', 'db') for call in ('user-setpin-public', 'user-setpin-loggedin', 'so-setpin', 'so-initpin') for e in ctx.q((28,), (28, 5, 13)) for c in range(nch)]
+    for j in fjobs: os.makedirs(j['scratch'], exist_ok=True)
+    for part in pmap(fault_job, fjobs, ctx.nproc): ctx.merge(part)
     run_walks(ctx, {'C04'}, ctx.q(480, 4000), ctx.q(70, 80), backends=ctx.q(('file', 'db'), ('file', 'db')), hook=hook)
     ctx.assumptions += ['a wrong PIN is accepted by chance with probability ~2^-32 per attempt (padding + magic); not retried because no such hit has ever been observed']
 if __name__ == '__main__': main('C04', run, min_evaluations=2000, min_distinct=30)
